@@ -136,8 +136,8 @@ Section NoFuel.
     2:{ intros [st1 o1] _. apply bind_noF; [apply IH; [exact Hcr|lia]|]. intros [st2 o2] _. discriminate. }
     destruct s as [es|t b ei el|tg it te b el|x e|x a e|x kvs|x b|bs b|k b|m ps b|g args|ps g args b]; cbn [core_stmt] in Hcs; try discriminate.
     - apply bind_noF; [apply eval_out_noF|]. intros; discriminate.
-    - rewrite !core_go in Hcs. apply andb_true_iff in Hcs. destruct Hcs as [Hcs H3]. apply andb_true_iff in Hcs. destruct Hcs as [H1 H2].
-      cbn [ssize] in Hs. rewrite !ssize_go in Hs.
+    - rewrite (core_go b), (core_go ei), (core_go el) in Hcs. apply andb_true_iff in Hcs. destruct Hcs as [Hcs H3]. apply andb_true_iff in Hcs. destruct Hcs as [H1 H2].
+      cbn [ssize] in Hs. rewrite (ssize_go b), (ssize_go ei), (ssize_go el) in Hs.
       apply bind_noF; [apply eval_noF|]. intros v _. destruct (truthy v); [apply IH; [exact H1|lia]|].
       assert (G : forall ei, core_prog ei = true -> ssize_l ei <= ssize_l ei -> ssize_l ei + ssize_l el < f ->
                 noF ((fix go (ei : list stmt) : res (sstate * str) :=
@@ -152,11 +152,11 @@ Section NoFuel.
           pose proof (ssize_pos s).
           destruct s; try (apply IHr; [exact Hc2|lia|lia]).
           apply bind_noF; [apply eval_noF|]. intros v2 _. destruct (truthy v2); [|apply IHr; [exact Hc2|lia|lia]].
-          cbn [core_stmt] in Hc1. rewrite !core_go in Hc1. apply andb_true_iff in Hc1. destruct Hc1 as [Hc1 _]. apply andb_true_iff in Hc1. destruct Hc1 as [Hc1 _].
-          cbn [ssize] in Hs0. rewrite !ssize_go in Hs0. apply IH; [exact Hc1|lia]. }
+          cbn [core_stmt] in Hc1. rewrite (core_go body), (core_go elifs), (core_go els) in Hc1. apply andb_true_iff in Hc1. destruct Hc1 as [Hc1 _]. apply andb_true_iff in Hc1. destruct Hc1 as [Hc1 _].
+          cbn [ssize] in Hs0. rewrite (ssize_go body), (ssize_go elifs), (ssize_go els) in Hs0. apply IH; [exact Hc1|lia]. }
       apply G; [exact H2|lia|lia].
-    - destruct te as [t|]; [discriminate|]. rewrite !core_go in Hcs. apply andb_true_iff in Hcs. destruct Hcs as [H1 H2].
-      cbn [ssize] in Hs. rewrite !ssize_go in Hs.
+    - destruct te as [t|]; [discriminate|]. rewrite (core_go b), (core_go el) in Hcs. apply andb_true_iff in Hcs. destruct Hcs as [H1 H2].
+      cbn [ssize] in Hs. rewrite (ssize_go b), (ssize_go el) in Hs.
       apply bind_noF; [apply eval_noF|]. intros v _. apply bind_noF; [apply iter_items_noF|]. intros items _.
       apply bind_noF.
       + generalize 0%N as idx. generalize (@nil N) as out. revert st.
